@@ -26,6 +26,7 @@ type Scenario struct {
 	Slots   []string   `json:"slots"`            // child slots offered per parent (default a,b,H)
 	Attach  []int      `json:"attach,omitempty"` // base worlds: base heights (relative to base tip, <= 0) where forks may start
 	Probes  bool       `json:"probes"`           // add duplicate / orphan submissions as operations
+	ForeignProbes bool `json:"foreign_probes,omitempty"` // offer the synthetic foreign split headers with unknown parents too
 	WorkProbe bool     `json:"work_probe,omitempty"` // add a submission with proof-of-work checking switched on
 	MaxTime time.Duration `json:"-"`
 	oracles []oracle
@@ -121,6 +122,14 @@ func (sc *Scenario) enabled(w *hdr.World, hist []hdr.Op) []hdr.Op {
 			ops = append(ops, hdr.Op{K: "sub", L: p + "/x/a"}) // parent p/x never submitted
 			if sc.WorkProbe {
 				ops = append(ops, hdr.Op{K: "subw", L: p + "/w"}) // proof-of-work checking on
+			}
+		}
+	}
+	if sc.ForeignProbes {
+		// the foreign split headers are offered in every state, whether or not their parent is known
+		for _, l := range []string{hdr.SynthF2After, hdr.SynthF3After} {
+			if !w.Submitted[l] || countResub(hist, l) < 2 {
+				ops = append(ops, hdr.Op{K: "sub", L: l})
 			}
 		}
 	}
@@ -287,8 +296,16 @@ func main() {
 	if len(total.Samples) > 16 {
 		total.Samples = total.Samples[:16]
 	}
+	extra := map[string]any{"scenarios": perScenario}
+	if *prop == "C03" {
+		vs, n, samples := realSplitPart()
+		all = append(all, vs...)
+		total.Checks += n
+		extra["real_split_table_evaluations"] = n
+		total.Samples = append(total.Samples, samples[:minInt(4, len(samples))]...)
+	}
 	ev := &mc.Evidence{PropertyID: *prop, Tier: *tier, Level: level(*prop),
-		Coverage: mc.ModelCheckingCoverage(total, map[string]any{"scenarios": perScenario}),
+		Coverage: mc.ModelCheckingCoverage(total, extra),
 		Assumptions: assumptions(*prop), Wall: time.Since(start).Seconds()}
 	if ev.Level == "fault_enumeration" {
 		ev.Coverage["evaluations"] = total.Counters["crash_points"]
@@ -296,6 +313,13 @@ func main() {
 		ev.Coverage["rule"] = "one evaluation = one crash point: the storage image 'state before the operation + first k recorded Write/Remove calls' of a Clean/Save in an explored history, loaded by a fresh repository and checked; enumerated for every k from 0 to all calls, for every such operation in every history of the search. distinct_nontrivial counts distinct storage images (by content digest) among crash points strictly inside a write sequence (0 < k < all)"
 	}
 	os.Exit(mc.Finish(ev, all))
+}
+
+func minInt(a, b int) int {
+	if a < b {
+		return a
+	}
+	return b
 }
 
 func doReplay(prop, path string) int {
